@@ -35,6 +35,10 @@ type opSpec struct {
 	GCAfter bool    `json:"gc_after_run,omitempty"`
 	// FailLate: failing bodies write (half of) their outputs before they fail. SecondPlain
 	// (with run_twice): the second run of the process is not forced although the first was.
+	// CrashAfterSourceSave (k > 0): the process dies right after the first of the two record
+	// writes of the k-th source file it evaluates (the record then carries the must-re-run mark
+	// although nothing about the file changed).
+	CrashAfterSourceSave int `json:"crash_after_first_save_of_source,omitempty"`
 	// NetFailAt: the k-th repository operation of this process fails (a fetch that cannot
 	// complete); with reload, the failed reload is followed by another one later.
 	NetFailAt int `json:"network_fails_at,omitempty"`
